@@ -37,7 +37,7 @@ from ..mir import fmt, walk, const_val
 from ..spec import curve
 
 EXPLANATION = __doc__
-TECHNIQUE = "interval abstract interpretation over ssa terms with exact carry/remainder relations and trace partitioning on carries (inductive limb-bound invariants, overflow-assert discharge); evaluated tables vs. definition-derived oracle; term-domain dataflow + limb-polynomial normal form modulo 2^255-19 with exact carry splitting; rational-function identity of the group law; exponent evaluation; bit provenance"
+TECHNIQUE = "interval abstract interpretation over ssa terms with exact carry/remainder relations and trace partitioning on carries (inductive limb-bound invariants, overflow-assert discharge); evaluated tables vs. definition-derived oracle; term-domain dataflow + limb-polynomial normal form modulo 2^255-19 with exact carry splitting; rational-function identity of the group law; exponent evaluation; bit provenance; level (type-state) dataflow over every fe32 operation call site of the crate against the proved 3xTIGHT operand contract, who-may-access rule for Fe limbs"
 
 PM = curve.P
 
